@@ -53,6 +53,26 @@ func c13Judge(c *Ctx, cs *Case) {
 		}
 	}
 	c.Count("inprocess_executions", int64(R))
+	if cs.X != nil && cs.X["probe_order"] != "" {
+		// the "in particular" clause: initialisers of properties whose name is written once run in source order, each once
+		want := strings.Split(cs.X["probe_order"], ",")
+		isTag := map[string]bool{}
+		for _, w := range want {
+			isTag[w] = true
+		}
+		var got []string
+		for _, ln := range strings.Split(base.Stdout, "\n") {
+			if isTag[ln] {
+				got = append(got, ln)
+			}
+		}
+		if strings.Join(got, ",") != strings.Join(want, ",") {
+			c.Violate(Violation{Why: "side effects of the initialisers of properties written once in an object literal did not happen once each in source order",
+				Expected: "probe lines in order: " + strings.Join(want, ","), Observed: "probe lines: " + strings.Join(got, ",") + "\n" + describeObs(base), Signature: "initialiser-order"})
+			return
+		}
+		c.Count("initialiser_order_checked", 1)
+	}
 	if cs.Mode == "cli" {
 		envs := [][]string{nil, {"TZ=Asia/Dhaka"}, {"GOMAXPROCS=1", "TZ=UTC"}, {"GOMAXPROCS=7", "PADDING=" + strings.Repeat("x", 4000)}, {"LANG=bn_BD.UTF-8", "GODEBUG=madvdontneed=1"}}
 		for i := 0; i < RP; i++ {
@@ -122,6 +142,7 @@ func c13Run(c *Ctx) {
 			}
 		}
 		var props, plain []string
+		dupKey := ""
 		for i, kk := range perm {
 			props = append(props, fmt.Sprintf(`%s: p("%s", %d)`, kk, kk, i+1))
 			plain = append(plain, fmt.Sprintf(`%s: %d`, kk, i+1))
@@ -129,14 +150,17 @@ func c13Run(c *Ctx) {
 		if r.Intn(4) == 0 {
 			// a property name written twice (determinism must hold for such literals too)
 			d := perm[r.Intn(len(perm))]
+			dupKey = d
 			props = append(props, fmt.Sprintf(`%s: p("%s-again", %d)`, d, d, 90+r.Intn(9)))
 			plain = append(plain, fmt.Sprintf(`%s: %d`, d, 90+r.Intn(9)))
 		}
 		lit := "{" + strings.Join(props, ", ") + "}"
 		plit := "{" + strings.Join(plain, ", ") + "}"
 		var src string
+		probeOrder := false
 		switch r.Intn(14) {
 		case 0: // side effects of initialisers in source order
+			probeOrder = true
 			src = Lines(Fun("p", "t, v", " "+Print("t")+" "+Ret("v")+" "), Var("o", lit), Print("o"))
 		case 1: // repeated listings of an unmodified object
 			src = Lines(Var("o", plit), Print(BI("keys", "o")), Print(BI("values", "o")), Print(BI("keys", "o")), Print(BI("values", "o")), Print(BI("keys", "o")+"[0]"), Print(BI("values", "o")+"[1]"))
@@ -170,10 +194,58 @@ func c13Run(c *Ctx) {
 			continue
 		}
 		cs := &Case{Gen: "map-order-sensitive", Src: src, X: nt}
+		if probeOrder {
+			var once []string
+			for _, kk := range perm {
+				if kk != dupKey {
+					once = append(once, kk)
+				}
+			}
+			cs.X = map[string]string{"nontrivial": "1", "probe_order": strings.Join(once, ",")}
+		}
 		if k%3 == 0 {
 			cs.Mode = "cli"
 		}
 		c13Judge(c, cs)
+	}
+	// 2b. literals in which one or two names are written twice, every initialiser a tagged probe
+	r = c.Rand("dupkeys")
+	n = c.N(120, 3000)
+	for k := 0; k < n; k++ {
+		nk := 3 + r.Intn(4)
+		var perm []string
+		used := map[string]bool{}
+		for len(perm) < nk {
+			kk := keys[r.Intn(len(keys))]
+			if !used[kk] {
+				used[kk] = true
+				perm = append(perm, kk)
+			}
+		}
+		type ent struct{ k, tag string }
+		var ents []ent
+		for _, kk := range perm {
+			ents = append(ents, ent{kk, kk})
+		}
+		dup := map[string]bool{}
+		for j := 0; j <= r.Intn(2); j++ {
+			d := perm[r.Intn(len(perm))]
+			dup[d] = true
+			at := r.Intn(len(ents) + 1)
+			ents = append(ents[:at], append([]ent{{d, d + "-again"}}, ents[at:]...)...)
+		}
+		var props, once []string
+		for i, e := range ents {
+			props = append(props, fmt.Sprintf(`%s: p("%s", %d)`, e.k, e.tag, i+1))
+			if !dup[e.k] {
+				once = append(once, e.tag)
+			}
+		}
+		src := Lines(Fun("p", "t, v", " "+Print("t")+" "+Ret("v")+" "), Var("o", "{"+strings.Join(props, ", ")+"}"), Print("o"), Print(BI("keys", "o")), Print(BI("values", "o")))
+		if !c.Mine() {
+			continue
+		}
+		c13Judge(c, &Case{Gen: "map-order-sensitive", Src: src, X: map[string]string{"nontrivial": "1", "probe_order": strings.Join(once, ",")}})
 	}
 	// 3. programs sampled from the general generator (with faults)
 	r = c.Rand("general")
@@ -196,10 +268,10 @@ func c13Run(c *Ctx) {
 func init() {
 	register(&CheckDef{
 		ID:   "C13",
-		Rule: "programs: the shipped examples (ক্লক statement removed, stdin supplied); seeded programs biased to what could depend on hash-iteration order or addresses (object literals of 2-6 keys from a pool with case-colliding and prefix-related names whose initialisers are tagged probes, nested literals, repeated key/value listings, listings used as data and in control flow, diagnostics rendering an object-literal expression, two failing initialisers, printing functions/built-ins/containers, failing after map iteration); programs from the general random generator. Each program is executed 8 (quick) / 40 (thorough) times in one process and (a third / a tenth of them) 4 / 15 times as fresh processes with varied environment (TZ, GOMAXPROCS, environment size, script name); stdout bytes, exit status and the first diagnostic (verbatim) must be identical. Go randomises every map iteration, so the repetition count plays the role of the schedule. Non-trivial = distinct program with an object literal / listing over >= 2 properties or a printed function value.",
+		Rule: "programs: the shipped examples (ক্লক statement removed, stdin supplied); seeded programs biased to what could depend on hash-iteration order or addresses (object literals of 2-6 keys from a pool with case-colliding and prefix-related names whose initialisers are tagged probes, nested literals, repeated key/value listings, listings used as data and in control flow, diagnostics rendering an object-literal expression, two failing initialisers, printing functions/built-ins/containers, failing after map iteration); programs from the general random generator. Each program is executed 8 (quick) / 40 (thorough) times in one process and (a third / a tenth of them) 4 / 15 times as fresh processes with varied environment (TZ, GOMAXPROCS, environment size, script name); stdout bytes, exit status and the first diagnostic (verbatim) must be identical; for literals with tagged probes (including ones where one name is written twice) the probes of the names written once must additionally appear once each in source order. Go randomises every map iteration, so the repetition count plays the role of the schedule. Non-trivial = distinct program with an object literal / listing over >= 2 properties or a printed function value.",
 		Assumptions: []string{"a k-entry map iteration repeats its order with probability about 1/k per execution; a 3-entry dependency escapes 8 comparisons with probability < 1e-3 and 40 with < 1e-18"},
 		Run:         c13Run,
 		Judge:       c13Judge,
-		MustCount:   func(c *Ctx) []string { return []string{"gen:shipped-examples", "gen:map-order-sensitive", "gen:general-programs", "inprocess_executions", "process_executions", "programs_clean", "programs_failing"} },
+		MustCount:   func(c *Ctx) []string { return []string{"gen:shipped-examples", "gen:map-order-sensitive", "gen:general-programs", "inprocess_executions", "process_executions", "programs_clean", "programs_failing", "initialiser_order_checked"} },
 	})
 }
